@@ -16,16 +16,17 @@ type LockRef struct {
 }
 
 type State struct {
-	ex    *Exec
-	pc    []string          // assumed facts (SMT Bool terms)
-	decls []string          // constants introduced on this path
-	heap  map[string]string // array name -> current constant
-	cnt   map[string]string // ghost counters -> Int term
-	held  []LockRef
-	trace []string // human-readable path trace (block labels / notable events)
-	pinned []string // channel terms whose closedness is owned by this thread
+	ex        *Exec
+	pc        []string          // assumed facts (SMT Bool terms)
+	decls     []string          // constants introduced on this path
+	heap      map[string]string // array name -> current constant
+	cnt       map[string]string // ghost counters -> Int term
+	held      []LockRef
+	trace     []string // human-readable path trace (block labels / notable events)
+	pinned    []string // channel terms whose closedness is owned by this thread
 	published map[string]bool
-	dead  bool
+	cells  map[string]Val // values stored in cells of objects allocated on this path (arr@ref -> value)
+	dead      bool
 }
 
 func (st *State) clone() *State {
@@ -42,6 +43,10 @@ func (st *State) clone() *State {
 	n.published = make(map[string]bool, len(st.published))
 	for k, v := range st.published {
 		n.published[k] = v
+	}
+	n.cells = make(map[string]Val, len(st.cells))
+	for k, v := range st.cells {
+		n.cells[k] = v
 	}
 	n.cnt = make(map[string]string, len(st.cnt))
 	for k, v := range st.cnt {
@@ -106,7 +111,24 @@ func (st *State) read(name, elemSort, ref string) string {
 	return "(select " + st.arr(name, elemSort) + " " + ref + ")"
 }
 
+func (st *State) forget(name, ref string) {
+	if len(st.cells) == 0 {
+		return
+	}
+	if strings.HasPrefix(ref, "(- ") {
+		delete(st.cells, name+"@"+ref)
+		return
+	}
+	pre := name + "@"
+	for k := range st.cells {
+		if strings.HasPrefix(k, pre) {
+			delete(st.cells, k)
+		}
+	}
+}
+
 func (st *State) write(name, elemSort, ref, val string) {
+	st.forget(name, ref)
 	old := st.arr(name, elemSort)
 	n := st.fresh(name, arraySort(elemSort))
 	st.assume("(= " + n + " (store " + old + " " + ref + " " + val + "))")
@@ -114,6 +136,7 @@ func (st *State) write(name, elemSort, ref, val string) {
 }
 
 func (st *State) havoc(name string) {
+	st.forget(name, "")
 	es, ok := st.ex.heapSort[name]
 	if !ok {
 		return // never touched: its initial constant is already unconstrained
@@ -188,26 +211,26 @@ type deferred struct {
 }
 
 type Frame struct {
-	fn        *ssa.Function
-	key       string
-	vals      map[ssa.Value]Val
-	names     map[string]Val
-	defers    []deferred
-	params    []Val
-	binds     []Val
-	entryHeap map[string]string
-	entryCnt  map[string]string
-	cut       map[*ssa.BasicBlock]bool
-	depth     int
-	top       bool
-	spec      *FuncSpec
-	lastIter  *Val
-	iterKeyT  types.Type
-	results   Val
-	loopEntry map[int]map[string]string // loop ordinal -> heap snapshot at loop entry (for old-at-entry)
-	parent    *Frame
+	fn         *ssa.Function
+	key        string
+	vals       map[ssa.Value]Val
+	names      map[string]Val
+	defers     []deferred
+	params     []Val
+	binds      []Val
+	entryHeap  map[string]string
+	entryCnt   map[string]string
+	cut        map[*ssa.BasicBlock]bool
+	depth      int
+	top        bool
+	spec       *FuncSpec
+	lastIter   *Val
+	iterKeyT   types.Type
+	results    Val
+	loopEntry  map[int]map[string]string // loop ordinal -> heap snapshot at loop entry (for old-at-entry)
+	parent     *Frame
 	heldAtLoop []string
-	retInstr  ssa.Instruction
+	retInstr   ssa.Instruction
 }
 
 func (fr *Frame) clone() *Frame {
